@@ -6,6 +6,9 @@ spelled like core rules but mean something else, used on the same inputs first."
 
 def pollute(P):
     other = type("OtherGrammar", (P.Rule,), {})
+    # the class LOOKS core names UP (non-creating `get`, as a tool listing a grammar would) before it defines them
+    for n in ("ALPHA", "digit", "WSP", "HEXDIG", "bit", "CTL", "VCHAR", "CRLF", "OCTET", "SP", "rulename", "comment", "repeat"):
+        other.get(n)
     for t in ['ALPHA =/ "_" / "@" / %xE9', 'DIGIT =/ "x"', 'ALPHA =/ "_"', "WSP =/ %x0C", 'HEXDIG =/ "G"', 'BIT =/ "2"', "CTL =/ %x80", 'DIGIT = "x"', "VCHAR = %x21-7F",
               "CRLF = %x0D.0A / %x0A", 'rulename = "zzz"', 'c-wsp =/ "#"', 'comment = "#" CRLF', 'char-val = "q"', 'repeat =/ "+"',
               "OCTET = %x00-1FF", 'SP = " " / "_"', 'dec-val = "d" 1*HEXDIG']:
